@@ -108,6 +108,21 @@ impl MFs {
     /// Resolves `path` (as the compiler would pass it to the kernel) from the canonical directory `cwd`.
     /// Returns the canonical path of what it denotes.
     pub fn resolve(&self, cwd: &str, path: &str, follow_last: bool) -> Result<String, MErr> {
+        self.resolve_with(cwd, path, follow_last, true)
+    }
+
+    /// Where the entry named by `path` physically lives, whatever the permission bits say (used to recognise the
+    /// same entry under two spellings when matching diagnostics; never to predict what the compiler can access).
+    pub fn entry_identity(&self, cwd: &str, path: &str) -> Option<String> {
+        self.resolve_with(cwd, path.trim_end_matches('/'), false, false).ok()
+    }
+
+    /// The file or directory `path` finally denotes (links followed), whatever the permission bits say.
+    pub fn target_identity(&self, cwd: &str, path: &str) -> Option<String> {
+        self.resolve_with(cwd, path.trim_end_matches('/'), true, false).ok()
+    }
+
+    fn resolve_with(&self, cwd: &str, path: &str, follow_last: bool, check_permissions: bool) -> Result<String, MErr> {
         let mut cur: String;
         let mut rest: Vec<String>;
         if let Some(abs) = path.strip_prefix("@ROOT@") {
@@ -138,7 +153,7 @@ impl MFs {
                 return Err(MErr::NotDir);
             }
             // looking anything up in a directory needs search permission on it
-            if node.mode & 0o100 == 0 {
+            if check_permissions && node.mode & 0o100 == 0 {
                 return Err(MErr::Access);
             }
             if comp == ".." {
@@ -841,7 +856,7 @@ pub fn judge(s: &Scenario, r: &RunResult) -> (Vec<Violation>, Vec<&'static str>)
         probes.push("I/O error expected");
         // every offending argument / entry is reported by an E001 naming it or something below it
         for bad in &exp.io_errors {
-            let bad_canon = fs.resolve(&cwd, &unroot(bad), true).ok();
+            let bad_canon = fs.entry_identity(&cwd, &unroot(bad));
             let hit = errors.iter().any(|d| {
                 d.code == "E001"
                     && quoted_path(&d.message).map(|p| {
@@ -851,10 +866,17 @@ pub fn judge(s: &Scenario, r: &RunResult) -> (Vec<Violation>, Vec<&'static str>)
                             return true;
                         }
                         // the same entry (or something below it) under another spelling
-                        match (fs.resolve(&cwd, &p, true).ok(), &bad_canon) {
+                        let same_entry = match (fs.entry_identity(&cwd, &p), &bad_canon) {
                             (Some(pc), Some(bc)) => pc == *bc || pc.starts_with(&format!("{bc}/")) || bc.is_empty(),
                             _ => false,
-                        }
+                        };
+                        // ... or another name (a link, or the target of the link) for the same file: which of the
+                        // two spellings survives de-duplication depends on the listing order
+                        let same_target = match (fs.target_identity(&cwd, &p), fs.target_identity(&cwd, &unroot(bad))) {
+                            (Some(pc), Some(bc)) => pc == bc || pc.starts_with(&format!("{bc}/")),
+                            _ => false,
+                        };
+                        same_entry || same_target
                     }) == Some(true)
             });
             if !hit {
